@@ -65,6 +65,9 @@ func runGenEngines(c *Check, o genOpts) map[*ssa.Function]bool {
 	nMemo := memoKeys(c, "MEMO-KEY", in)
 	c.Counts["memo_tables"] = nMemo
 	c.Okf("MEMO-KEY", "scan", "-", "%d reachable repository functions scanned for look-up-or-compute tables: %d found and evaluated", len(in), nMemo)
+	nCnt := counterPairs(c, "COUNTER-PAIR", in)
+	c.Counts["counter_entry_deletes"] = nCnt
+	c.Okf("COUNTER-PAIR", "scan", "-", "%d reachable repository functions scanned for deletes from per-key nesting counters: %d found and evaluated", len(in), nCnt)
 	nDead := deadErrors(c, "DEAD-ERROR", in)
 	c.Counts["dead_error_assignments"] = nDead
 	c.Okf("DEAD-ERROR", "scan", "-", "%d reachable repository functions scanned for error results bound to a variable that is never read: %d found", len(in), nDead)
@@ -841,4 +844,155 @@ func blankLHS(f *ssa.Function, call *ssa.Call, idx int) bool {
 		return true
 	})
 	return !found || blank
+}
+
+// counterPairs (COUNTER-PAIR): a map[K]integer held in a struct field that some
+// function increments per key (`m[k]++`) is a nesting counter. An entry may be
+// removed (`delete(m, k)`) only where its count is known to be exhausted: on the
+// outcome `m[k] == 0` / `m[k] <= 0` (after the decrement) or `m[k] == 1` (the last
+// one, instead of the decrement). An unconditional delete, or one on the non-zero
+// outcome, drops the outer levels of a nested acquisition.
+func counterPairs(c *Check, rule string, fns map[*ssa.Function]bool) int {
+	p := c.P
+	type fkey struct {
+		own *types.Named
+		fld string
+	}
+	counters := map[fkey]bool{}
+	isIntMap := func(v ssa.Value) (fkey, bool) {
+		own, fld, _, ok := loadedField(v)
+		if !ok || own == nil {
+			return fkey{}, false
+		}
+		m, ok := v.Type().Underlying().(*types.Map)
+		if !ok {
+			return fkey{}, false
+		}
+		b, ok := m.Elem().Underlying().(*types.Basic)
+		if !ok || b.Info()&types.IsInteger == 0 {
+			return fkey{}, false
+		}
+		return fkey{own, fld}, true
+	}
+	for _, f := range p.RepoFuncs() {
+		eachInstr(f, func(_ *ssa.BasicBlock, i ssa.Instruction) {
+			mu, ok := i.(*ssa.MapUpdate)
+			if !ok {
+				return
+			}
+			k, ok := isIntMap(mu.Map)
+			if !ok {
+				return
+			}
+			bin, ok := mu.Value.(*ssa.BinOp)
+			if !ok || bin.Op != token.ADD {
+				return
+			}
+			if one, ok := constInt(bin.Y); !ok || one != 1 {
+				return
+			}
+			if lk, ok := bin.X.(*ssa.Lookup); ok && !lk.CommaOk {
+				if k2, ok := isIntMap(lk.X); ok && k2 == k {
+					counters[k] = true
+				}
+			}
+		})
+	}
+	n := 0
+	var list []*ssa.Function
+	for f := range fns {
+		list = append(list, f)
+	}
+	sort.Slice(list, func(i, j int) bool { return fnName(list[i]) < fnName(list[j]) })
+	for _, f := range list {
+		eachInstr(f, func(_ *ssa.BasicBlock, i ssa.Instruction) {
+			call, ok := i.(*ssa.Call)
+			if !ok {
+				return
+			}
+			if b, ok := call.Call.Value.(*ssa.Builtin); !ok || b.Name() != "delete" || len(call.Call.Args) != 2 {
+				return
+			}
+			k, ok := isIntMap(call.Call.Args[0])
+			if !ok || !counters[k] {
+				return
+			}
+			// `for k := range m { delete(m, k) }` empties the table: a reset between
+			// two independent walks, not the release of one level
+			if ex, ok := call.Call.Args[1].(*ssa.Extract); ok && ex.Index == 1 {
+				if nx, ok := ex.Tuple.(*ssa.Next); ok {
+					if rg, ok := nx.Iter.(*ssa.Range); ok {
+						if k2, ok := isIntMap(rg.X); ok && k2 == k {
+							return
+						}
+					}
+				}
+			}
+			n++
+			keyExpr := exprKey(call.Call.Args[1], 0)
+			exhausted := false
+			eachInstr(f, func(_ *ssa.BasicBlock, j ssa.Instruction) {
+				bin, ok := j.(*ssa.BinOp)
+				if !ok || exhausted {
+					return
+				}
+				var v ssa.Value
+				var kc int64
+				if kk, ok := constInt(bin.Y); ok {
+					v, kc = bin.X, kk
+				} else if kk, ok := constInt(bin.X); ok {
+					v, kc = bin.Y, kk
+				} else {
+					return
+				}
+				// the counter value: a look-up of the same entry (or the comma-ok value)
+				if ex, ok := v.(*ssa.Extract); ok && ex.Index == 0 {
+					v = ex.Tuple
+				}
+				lk, ok := v.(*ssa.Lookup)
+				if !ok {
+					return
+				}
+				if k2, ok := isIntMap(lk.X); !ok || k2 != k || exprKey(lk.Index, 0) != keyExpr {
+					return
+				}
+				okOutcome := func(trueSide bool) bool {
+					switch {
+					case bin.Op == token.EQL && (kc == 0 || kc == 1):
+						return trueSide
+					case bin.Op == token.NEQ && (kc == 0 || kc == 1):
+						return !trueSide
+					case bin.Op == token.LEQ && (kc == 0 || kc == 1):
+						return trueSide
+					case bin.Op == token.LSS && (kc == 1 || kc == 2):
+						return trueSide
+					case bin.Op == token.GTR && (kc == 0 || kc == 1):
+						return !trueSide
+					case bin.Op == token.GEQ && (kc == 1 || kc == 2):
+						return !trueSide
+					}
+					return false
+				}
+				for _, br := range branchesOn(bin) {
+					for _, side := range []bool{true, false} {
+						succ, other := br.TrueSucc, br.FalseSucc
+						if !side {
+							succ, other = other, succ
+						}
+						if !okOutcome(side) {
+							continue
+						}
+						if (succ == call.Block() || succ.Dominates(call.Block())) && len(succ.Preds) == 1 && !other.Dominates(call.Block()) {
+							exhausted = true
+						}
+					}
+				}
+			})
+			key := fmt.Sprintf("%s|entry of counter %s.%s removed only when exhausted", fnName(f), k.own.Obj().Name(), k.fld)
+			c.Cond(exhausted, rule, key, p.pos(call.Pos()),
+				"the delete runs only on the outcome where the entry's count is 0 or 1",
+				fmt.Sprintf("%s.%s counts nested acquisitions per key (it is incremented elsewhere); this delete is not tied to the count being exhausted, so releasing an inner level forgets the outer ones", k.own.Obj().Name(), k.fld))
+		})
+	}
+	return n
 }
